@@ -494,6 +494,21 @@ func main() {
 		}
 		facts = append(facts, fact{"suspendShape", "def suspendShape : Bool := " + v, "node.go:checkSuspend", "suspend iff tooManyUndeterminedEvents || evicted (shape of the two definitions)", ok})
 	}
+	// F9 core.busy: the disjunction that keeps a node gossiping
+	{
+		fn := findFunc(core, "core", "busy")
+		ok := false
+		text := ""
+		if fn != nil {
+			text = src(fn.Body)
+			ok = strings.Contains(text, "return c.hg.PendingLoadedEvents > 0 || len(c.transactionPool) > 0 || len(c.internalTransactionPool) > 0 || c.selfBlockSignatures.Len() > 0 || (c.hg.LastConsensusRound != nil && *c.hg.LastConsensusRound < c.targetRound)")
+		}
+		v := "true"
+		if !ok {
+			v = "unsupported_busyShape"
+		}
+		facts = append(facts, fact{"busyShape", "def busyShape : Bool := " + v, "core.go:busy", "pendingLoaded > 0 || txPool > 0 || itxPool > 0 || sigPool > 0 || (lcr != nil && lcr < targetRound)", ok})
+	}
 	// F6 order of steps
 	{
 		fnChk := findFunc(core, "core", "checkFastForward")
